@@ -266,3 +266,41 @@ package values
 //@ ensures emptyFirstLast: (iv.Interface() == box("first", string) || iv.Interface() == box("last", string)) && pl_len(av.wrapperValue.value) == 0 ==> result.Interface() == nil
 //@ ensures size: iv.Interface() == box("size", string) ==> result.Interface() == box(pl_len(av.wrapperValue.value), int)
 //@ ensures other: iv.Interface() != box("first", string) && iv.Interface() != box("last", string) && iv.Interface() != box("size", string) ==> result.Interface() == nil
+
+// m[k] / m.k: reads the entry; m.size is the entry count when there is no such key; a key
+// that cannot be a key of this map reads as nil (never a reflect panic)
+//@ func (values.mapValue).IndexValue
+//@ props C08 C18 C01
+//@ panics nothing
+//@ requires arg: iv != nil
+//@ assigns alloc F$values.dropWrapper$d, alloc F$values.dropWrapper$v, alloc F$values.dropWrapper$Once
+//@ ensures nonnil: result != nil
+//@ ensures nilKey: iv.Interface() == nil ==> result.Interface() == nil
+//@ ensures strKey: is(mv.wrapperValue.value, map[string]any) && is(iv.Interface(), string) && has(as(mv.wrapperValue.value, map[string]any), as(iv.Interface(), string)) && plainv(mapget(as(mv.wrapperValue.value, map[string]any), as(iv.Interface(), string))) ==> result.Interface() == mapget(as(mv.wrapperValue.value, map[string]any), as(iv.Interface(), string))
+//@ ensures missing: is(mv.wrapperValue.value, map[string]any) && is(iv.Interface(), string) && !has(as(mv.wrapperValue.value, map[string]any), as(iv.Interface(), string)) ==> result.Interface() == nil
+
+//@ func (values.mapValue).PropertyValue
+//@ props C08 C18 C01
+//@ panics nothing
+//@ requires arg: iv != nil
+//@ assigns alloc F$values.dropWrapper$d, alloc F$values.dropWrapper$v, alloc F$values.dropWrapper$Once
+//@ ensures nonnil: result != nil
+//@ ensures nilKey: iv.Interface() == nil ==> result.Interface() == nil
+//@ ensures strKey: is(mv.wrapperValue.value, map[string]any) && is(iv.Interface(), string) && has(as(mv.wrapperValue.value, map[string]any), as(iv.Interface(), string)) && plainv(mapget(as(mv.wrapperValue.value, map[string]any), as(iv.Interface(), string))) ==> result.Interface() == mapget(as(mv.wrapperValue.value, map[string]any), as(iv.Interface(), string))
+//@ ensures size: is(mv.wrapperValue.value, map[string]any) && iv.Interface() == box("size", string) && !has(as(mv.wrapperValue.value, map[string]any), "size") ==> result.Interface() == box(pl_len(mv.wrapperValue.value), int)
+//@ ensures missing: is(mv.wrapperValue.value, map[string]any) && is(iv.Interface(), string) && iv.Interface() != box("size", string) && !has(as(mv.wrapperValue.value, map[string]any), as(iv.Interface(), string)) ==> result.Interface() == nil
+
+//@ func (values.stringValue).PropertyValue
+//@ props C08 C18 C01
+//@ panics nothing
+//@ requires arg: iv != nil
+//@ assigns nothing
+//@ ensures nonnil: result != nil
+//@ ensures size: iv.Interface() == box("size", string) ==> result.Interface() == box(len(pl_str(sv.wrapperValue.value)), int)
+//@ ensures other: iv.Interface() != box("size", string) ==> result.Interface() == nil
+
+//@ func (values.stringValue).Contains
+//@ props C08 C09 C18 C01
+//@ panics nothing
+//@ requires arg: substr != nil
+//@ assigns nothing
